@@ -174,7 +174,8 @@ class QCow2(AlignedStream):
         offset = self.header.snapshots_offset
         for _ in range(self.header.nb_snapshots):
             snapshots.append(QCow2Snapshot(self, offset))
-            offset += snapshots[-1].entry_size
+            # Snapshot table entries are 8 byte aligned
+            offset += (snapshots[-1].entry_size + 7) & ~7
 
         return snapshots
 
